@@ -8,8 +8,8 @@ the exposes the property's proviso demands.  --prop C02: adversarial handlers dr
 foreground tag id+1 so that the writer of a cell can be identified on the grid.
 exhaustive: every history of <= 4 operations from a fixed alphabet over a fixed tree of 3 windows, each followed by a flush.
 
-Kept away from (property C08, not ours): closing a window that still has queued restack requests; any operation on a
-closed window or below one."""
+Kept away from: any operation on a closed window or below one (undefined: the parent chain no longer reaches a root);
+scrolling while an empty (0 x n) window exists (known finding: tickit_rectset_subtract does not terminate)."""
 import argparse, random, json, itertools
 
 ap = argparse.ArgumentParser()
@@ -53,6 +53,28 @@ class Hist:
                     out.append(i); break
                 p = self.parent.get(p)
         return out
+
+
+# Known findings not yet repaired in the library: generated histories stay away from their triggers (each is probed
+# deliberately from corpus/); remove a name here once its fix is in the tree.
+UNFIXED = {"scroll_unclipped", "empty_subtract", "root_shrink", "hidden_root"}
+
+
+def sticks_out(h, w, reg):
+    """Does region reg (t,l,n,k in w's coordinates) extend beyond the bounds of some ancestor of w?"""
+    t, l, n, k = reg
+    while h.parent.get(w) is not None:
+        t += h.rect[w][0]; l += h.rect[w][1]
+        p = h.parent[w]
+        if t < 0 or l < 0 or t + n > h.rect[p][2] or l + k > h.rect[p][3]:
+            return True
+        w = p
+    return False
+
+
+def isect(a, b):
+    t = max(a[0], b[0]); l = max(a[1], b[1]); bt = min(a[0] + a[2], b[0] + b[2]); r = min(a[1] + a[3], b[1] + b[3])
+    return [t, l, bt - t, r - l] if t < bt and l < r else None
 
 
 def pen_tok(id_, null_ok=True):
@@ -181,7 +203,10 @@ def history(h_index, big):
         if x < 0.22:
             emit("flush"); stats["flushes"] += 1; h.pending.clear()
         elif x < 0.30:
-            emit("%s %d" % (rng.choice(["hide", "show", "hide", "show"]), w))
+            hs = rng.choice(["hide", "show", "hide", "show"])
+            if C02 and hs == "hide" and w == 0 and "hidden_root" in UNFIXED:
+                emit("flush"); stats["flushes"] += 1; h.pending.clear()    # no damage pending when the root is hidden (known finding)
+            emit("%s %d" % (hs, w))
         elif x < 0.42:
             emit("%s %d" % (rng.choice(["raise", "raisefront", "lower", "lowerback"]), w))
             if w != 0: h.pending.add(w)
@@ -203,19 +228,38 @@ def history(h_index, big):
                 emit("expose %d" % w)
             else:
                 emit("expose %d %d %d %d %d" % (w, rng.randint(-1, max(0, n)), rng.randint(-2, max(0, k)), rng.randint(1, max(1, n + 1)), rng.randint(1, max(1, k + 2))))
-        elif x < 0.80:
+        elif x < 0.80 and not ("empty_subtract" in UNFIXED and any((h.rect[i][2] == 0 or h.rect[i][3] == 0) for i in live)):
+            # (a visible empty window in front makes tickit_rectset_subtract loop for ever: known finding, probed from corpus/)
+            if "scroll_unclipped" in UNFIXED:
+                inside = [v for v in live if not sticks_out(h, v, [0, 0, h.rect[v][2], h.rect[v][3]])]
+                if w not in inside and inside and rng.random() < 0.9:
+                    w = rng.choice(inside)
             n, k = h.rect[w][2], h.rect[w][3]
             d = rng.choice([0, 1, 1, -1, -1, 2, -2, 3, n, -n, n - 1, n + 1])
             r = rng.choice([0, 0, 0, 1, -1, 2, -3, k, k - 1])
             if d == 0 and r == 0 and rng.random() < 0.8:
                 d = rng.choice([1, -1])
             y = rng.random()
-            if y < 0.5:
+            whole_out = "scroll_unclipped" in UNFIXED and sticks_out(h, w, [0, 0, n, k])
+            if y < 0.5 and not whole_out:
                 emit("scroll %d %d %d" % (w, d, r))
-            elif y < 0.85:
+            elif y < 0.85 or whole_out:
                 rt = rng.randint(-1, max(0, n - 1)); rl = rng.randint(-1, max(0, k - 1))
-                emit("scrollrect %d %d %d %d %d %d %d %s" % (w, rt, rl, rng.randint(1, max(1, n + 1 - max(rt, 0))), rng.randint(1, max(1, k + 1 - max(rl, 0))), d, r,
-                                                              rng.choice(["pen=N", "pen=N", "pen=x:%d:x" % rng.randint(0, 7)])))
+                rr = [rt, rl, rng.randint(1, max(1, n + 1 - max(rt, 0))), rng.randint(1, max(1, k + 1 - max(rl, 0)))]
+                reg = isect([0, 0, n, k], rr)
+                if "scroll_unclipped" in UNFIXED and reg is not None and sticks_out(h, w, reg):
+                    # shrink the request to the part inside every ancestor, if any
+                    a_t, a_l = 0, 0; v = w; box = [0, 0, n, k]
+                    while h.parent.get(v) is not None:
+                        a_t += h.rect[v][0]; a_l += h.rect[v][1]; p = h.parent[v]
+                        box = isect(box, [-a_t, -a_l, h.rect[p][2], h.rect[p][3]]) if box else None
+                        v = p
+                    rr = isect(box, rr) if box else None
+                if rr is not None:
+                    emit("scrollrect %d %d %d %d %d %d %d %s" % (w, rr[0], rr[1], rr[2], rr[3], d, r,
+                                                                  rng.choice(["pen=N", "pen=N", "pen=x:%d:x" % rng.randint(0, 7)])))
+                else:
+                    emit("expose %d" % w)
             else:
                 emit("scrollch %d %d %d" % (w, d, r))
                 for c in range(h.n):
@@ -225,12 +269,12 @@ def history(h_index, big):
             new_window(h)
         elif x < 0.91 and w != 0:
             sub = h.descendants(w)
-            if any(s in h.pending for s in sub):
-                emit("flush"); stats["flushes"] += 1; h.pending.clear()
             emit("close %d" % w)
             h.dead.update(sub)
         elif x < 0.96:
             nl = max(1, tl + rng.choice([-3, -2, -1, 0, 1, 2, 3])); nc = max(1, tc + rng.choice([-7, -3, -1, 0, 1, 2, 5]))
+            if C02 and "root_shrink" in UNFIXED and (nl < tl or nc < tc):
+                emit("flush"); stats["flushes"] += 1; h.pending.clear()    # no damage pending across a shrink (known finding)
             emit("resize %d %d" % (nl, nc))
             tl, tc = nl, nc
             h.rect[0] = [0, 0, tl, tc]
@@ -259,8 +303,19 @@ if a.tier == "exhaustive":
                 tk = o.split()
                 if closed and tk[0] not in ("resize", "flush") and tk[1] == "2": bad = True
                 if o == "close 2":
-                    if pend2 or closed: bad = True
+                    if closed: bad = True
                     closed = True
+            # known findings not yet repaired: window 2 sticks out of a 3x5 terminal; damage pending across a shrink
+            small = False; dirty = False
+            for o in ops:
+                if o == "flush": dirty = False
+                elif o == "resize 3 5":
+                    if C02 and "root_shrink" in UNFIXED and dirty: bad = True
+                    small = True
+                elif o == "resize 5 9": small = False; dirty = True
+                else:
+                    dirty = True
+                    if o.startswith("scroll 2") and small and "scroll_unclipped" in UNFIXED: bad = True
             if bad: continue
             for mode in (["a"] if k == 4 else ["a", "p", "r"]):
                 emit("new %s 4 8 %s %s" % (a.prop, mode, "pen=1:0:x"))
